@@ -22,6 +22,7 @@ generated file compiles; a difference shows up as a failing lemma of Proofs/GenA
   LineTable.v      opcode -> LineInstruction constructors of LineInstruction::parse
   CaseFold.v       CASE_FOLD_DATA (src/case_fold_data.rs)
 """
+import functools
 import os
 import re
 
@@ -31,6 +32,7 @@ from tables import Unparsed
 HEADER = T.HEADER
 
 
+@functools.lru_cache(maxsize=None)
 def src_of(repo, rel):
     return T.strip_comments(open(os.path.join(repo, rel)).read())
 
@@ -75,6 +77,7 @@ def lit(val):
 
 # ---- Constants.v ------------------------------------------------------------------------------
 
+@functools.lru_cache(maxsize=None)
 def dw_blocks(repo):
     """[(struct, type, [(name, value)], [(alias, value)])] of every dw!( ... ) invocation"""
     src = src_of(repo, 'src/constants.rs')
@@ -121,6 +124,7 @@ def dw_blocks(repo):
     return out
 
 
+@functools.lru_cache(maxsize=None)
 def all_constants(repo):
     d = {}
     for _, _, vals, als in dw_blocks(repo):
